@@ -182,10 +182,29 @@ def gen_twin(rng, tid):
             cand.append(("rid", "rid = r.id", "Seen::U64(9)"))
         if recv:
             cand.append(("base", "base = self.base", "Seen::I64(inp.b)"))
+        # dotted names that share a segment with a parameter: the parameter stays a field of its own
+        if "a" in chosen:
+            cand.append(("req.a", "req.a = a", "Seen::U64(inp.a as u64)"))
+            cand.append(("a.next", "a.next = a.wrapping_add(2)", "Seen::U64(inp.a.wrapping_add(2) as u64)"))
+            # a custom field with the plain name of a parameter replaces that parameter's field
+            cand.append(("a", "a = a.wrapping_add(5)", "Seen::U64(inp.a.wrapping_add(5) as u64)"))
+        if "b" in chosen:
+            cand.append(("http.b", "http.b = %b", "Seen::Debug(format!(\"{}\", inp.b))"))
+            cand.append(("b", "b = ?b", "Seen::Debug(format!(\"{:?}\", inp.b))"))
+        if "s" in chosen:
+            cand.append(("s.len", "s.len = s.len()", "Seen::U64(inp.s.len() as u64)"))
         rng.shuffle(cand)
+        special = [c for c in cand if "." in c[0] or c[0] in all_param_names]
+        if special and rng.random() < 0.5:
+            c0 = rng.choice(special)
+            cand.remove(c0)
+            cand.insert(0, c0)
         for (nm, src, seen) in cand[: rng.choice([1, 1, 2, 3])]:
             if nm in all_param_names:
-                continue
+                if nm not in ("a", "b") or nm in skips:
+                    continue
+                # override: the parameter's own field disappears, the custom one is shown instead
+                exp_fields = [(n2, s2) for (n2, s2) in exp_fields if n2 != nm]
             custom.append(src)
             if seen is not None:
                 exp_fields.append((nm, seen))
@@ -270,6 +289,9 @@ def gen_twin(rng, tid):
 
     generics = [menu[k]["generic"] for k in chosen if "generic" in menu[k]]
     params = [menu[k]["decl"] for k in chosen]
+    # the arguments of the attribute may come in any order
+    if rng.random() < 0.6:
+        rng.shuffle(attrs)
     attr_src = "#[tracing::instrument" + (f"({', '.join(attrs)})" if attrs else "") + "]"
     t.attr = attr_src
     t.fn_name = f"inst_{tid}"
